@@ -554,6 +554,13 @@ def run_check(pid, tier):
     for k, v in extra.items():
         if k != "violations":
             coverage[k] = v
+    if hasattr(mod, "sim_time"):
+        coverage["simulated_time"] = mod.sim_time(stats)
+    else:
+        coverage["simulated_time"] = {"unit": "operations executed against live objects (logical steps; the system under test has no wall-clock timer)",
+                                      "value": stats.get("ops", 0)}
+    coverage["interleavings_measure"] = ("distinct event-log / draw-trace digests (distinct_event_logs); for Engine H also distinct abstract "
+                                         "states and (state, operation, outcome) transitions; interleavings are over live objects of one caller, not threads")
     if hasattr(mod, "reach_warnings"):
         for w in mod.reach_warnings(stats):
             print(f"REACH-WARNING probe={w}", file=sys.stderr, flush=True)
